@@ -16,7 +16,7 @@ from ..pool import pmap
 from ..refsem import sem
 from ..refsem.tables import LOGICS
 from ..runner import Report
-from .c01 import plan, STEP_CAP
+from .c01 import plan, STEP_CAP, explore_plan
 
 def ref_eval_model(name, model, branch_consts=()):
     """Copy the library model's atomic data into a reference model; returns
@@ -157,17 +157,17 @@ def _task(task):
         arg = Argument(astr)
         out['args'] += 1
         runs = []
-        explore = frag != 'prop' and (tier != 'quick' or idx % 8 == 0 or (astr.count(':') >= 2 and idx % 2 == 0))
+        explore, xbound, xcap = explore_plan(tier, frag, idx, astr)
         extra = dict(is_build_models=True, max_steps=STEP_CAP[tier])
         if explore:
-            r = tabx.explore(name, arg, bound=bound, max_execs=12 if tier == 'quick' else 300, keep_tab=True, extra_opts=extra)
+            r = tabx.explore(name, arg, bound=xbound, max_execs=xcap, keep_tab=True, extra_opts=extra)
             runs += [('default', x) for x in r['results']]
             out['distinct_hist'] += r['distinct']
             out['capped'] += int(r['capped'])
         else:
             runs.append(('default', tabx.execute(name, arg, keep_tab=True, extra_opts=extra)))
             out['distinct_hist'] += 1
-        if tier != 'quick' or idx % 8 == 3:
+        if (idx % 8 == 3 if tier == 'quick' else idx % 2 == 1):
             for o in ('nogroup', 'norank', 'neither'):
                 runs.append((o, tabx.execute(name, arg, optname=o, keep_tab=True, extra_opts=extra)))
         reported = False
